@@ -47,7 +47,13 @@ def scenario_ops(sc, rnd):
         ops.append([2, s, 2, 2, 4 if s != 2 else 0, 1, 0, 2 if s != 2 else 1, 0])
     ops.append([3, 11, sc['jp'][0], sc['jp'][1]])
     for i, t in enumerate(sc['terms']):
-        ops.append([4, 21 + i, 2, 11, 0, t[0], t[1], t[2]])
+        if sc.get('pass') == 1 and i == len(sc['terms']) - 1:
+            # the last terminal hangs on a second junction with two connectors, placed between the registered junction and the shapes
+            ops.append([3, 12, 24, 12])
+            ops.append([4, 21 + i, 2, 11, 0, 2, 12, 0])
+            ops.append([4, 31, 2, 12, 0, t[0], t[1], t[2]])
+        else:
+            ops.append([4, 21 + i, 2, 11, 0, t[0], t[1], t[2]])
     ops.append([13])
     ops.append([12, 11])
     ops.append([13])
@@ -76,7 +82,7 @@ def main(tier):
         def some(pred, k):
             pool = [x for x in scs if pred(x)]
             return rnd.sample(pool, min(k, len(pool)))
-        scs = some(lambda x: x['geo'] == 0 and x['reg'] == 0, 700) + some(lambda x: x['geo'] == 1 and x['reg'] == 0, 300) + some(lambda x: x['reg'] == 1, 150)
+        scs = some(lambda x: x['geo'] == 0 and x['reg'] == 0 and x['pass'] == 0, 600) + some(lambda x: x['pass'] == 1, 250) + some(lambda x: x['geo'] == 1 and x['reg'] == 0, 300) + some(lambda x: x['reg'] == 1, 150)
     hists = [scenario_ops(sc, rnd) for sc in scs]
     scen = os.path.join(d, 'scen.txt')
     cfgs = []
